@@ -466,6 +466,49 @@ def l2_conform(ck, seed, n):
         ck.violation('EioQueueFine invariant %s violated on a real execution' % inv,
                      {'script': facts[i]['script'], 'schedule_seed': facts[i]['schedule_seed'],
                       'tlc': txt, 'kind': 'l2-trace'})
+    # ---- spec -> code at L2: TLC schedules of EioQueueFineSim replayed on the real Server ------
+    sconsts = l2_consts(4, MaxMsg=9, Cap=16, SerialPolls='FALSE', Timeouts='FALSE')
+    cfg = tlc.cfg_text(spec='SimSpec', constants=sconsts, constraints=['EmitSchedule'])
+    r = tlc.run('EioQueueFineSim', cfg, simulate='num=%d' % (n * 2), depth=80, workers=1,
+                seed=seed + 5, timeout=600, constants=sconsts)
+    if r.error:
+        raise MachineryError('EioQueueFineSim simulation failed: %s\n%s' % (r.error, r.out[-1500:]))
+    ck.add_tlc(r, 'simulation of EioQueueFineSim: behaviours run until nothing can move, with schedule')
+    seen, i, txt = {}, 0, r.out
+    while True:
+        i = txt.find('<< "SCHEDULE"', i)
+        if i < 0:
+            break
+        j = _balanced(txt, i)
+        key, i = txt[i:j], j
+        if key not in seen:
+            seen[key] = tlc.parse_tla_value(key)
+    nrep = nsame = 0
+    for key, vv in seen.items():
+        sched, mq, munf, mclosed, mclosing, mintable, mev, mdeliv, msent, mpc = vv[1:11]
+        nrep += 1
+        try:
+            f = l2.replay_server_schedule(sched)
+        except RuntimeError as e:
+            ck.violation('the real Server cannot follow a TLC schedule of EioQueueFine: %s' % e,
+                         {'schedule': sched, 'kind': 'l2-schedule'})
+            continue
+        pcs = mpc if isinstance(mpc, list) else [mpc[k] for k in sorted(mpc)]
+        same = (f['q'], f['unf'], f['closed'], f['closing'], f['intable'], f['ev'], f['deliv'],
+                f['sent']) == (mq, munf, mclosed, mclosing, mintable, mev, mdeliv, msent) and \
+            all(f['done'].get(k + 1, False) == (pcs[k] == 'done') for k in range(len(pcs)))
+        nsame += bool(same)
+        if not same and nrep - nsame <= 3:
+            ck.violation('under a TLC schedule the real Server ends in %r, EioQueueFine in %r' % (
+                f, [mq, munf, mclosed, mclosing, mintable, mev, mdeliv, msent, pcs]),
+                {'schedule': sched, 'kind': 'l2-schedule'})
+        ck.distinct(['l2sched', [(e['p'], e['k']) for e in sched]])
+    if nrep < 20:
+        raise MachineryError('vacuity: only %d behaviours came out of the L2 simulation' % nrep)
+    ck.add_conformance('spec -> code at L2: behaviours of EioQueueFine generated by TLC (4 tasks), each '
+                       'replayed on the real threaded Server under exactly its schedule (hub in '
+                       'scripted mode); final queue, counter, flags, table, events, deliveries and '
+                       'which tasks returned must equal the model\'s', nrep, nsame)
     # the same for one websocket session (reader + writer threads)
     wtraces, wfacts = [], []
     for i, sc in enumerate(l2.ws_scripts(seed + 37, n)):
